@@ -1040,7 +1040,10 @@ func runC11(c *Ctx) {
 // model count whole seconds): an expired copy with a base that is newer by 1 ns .. 999 ms is stale
 func runC10Subsecond(c *Ctx) {
 	n := 0
-	for _, delta := range []time.Duration{time.Nanosecond, time.Millisecond, 500 * time.Millisecond, 999 * time.Millisecond, 1500 * time.Millisecond} {
+	// ... and by more than an hour, which puts the base's time stamp AHEAD of the clock (a base
+	// written by a machine whose clock runs fast): "newer" is a comparison of the two stamps
+	for _, delta := range []time.Duration{time.Nanosecond, time.Millisecond, 500 * time.Millisecond, 999 * time.Millisecond, 1500 * time.Millisecond,
+		70 * time.Minute, 30 * 24 * time.Hour} {
 		for _, how := range []string{"ReadFile", "OpenFile"} {
 			n++
 			base, layer := afero.NewMemMapFs(), afero.NewMemMapFs()
@@ -1071,5 +1074,5 @@ func runC10Subsecond(c *Ctx) {
 			}
 		}
 	}
-	c.Extra["subsecond"] = fmt.Sprintf("%d reads of an expired copy whose base is newer by 1ns..1.5s (oracle only)", n)
+	c.Extra["subsecond"] = fmt.Sprintf("%d reads of an expired copy whose base is newer by 1ns..1.5s, or stamped ahead of the clock (oracle only)", n)
 }
